@@ -451,6 +451,18 @@ fn suffix_keys_of_base(base: &str, chunk: usize, st: &mut Stats) -> Result<(), F
     let sb = Sandbox::new();
     let opts = Opts::parse("s");
     let ctx = Ctx::new(opts, &sb).map_err(pf)?;
+    // before anything is learned for the base: the user takes a non-preselected candidate of two texts WITHOUT a word
+    // part (an emoticon, a lone full stop's other reading).  Whatever the engine stores for them must not count for
+    // real words.
+    for noise in [";)", ":("] {
+        if let Some(l) = ctx.type_frontend(noise).map_err(pf)? {
+            if !l.lonely && l.cands.len() >= 2 {
+                ctx.commit(if l.sel == 0 { 1 } else { 0 }).map_err(pf)?;
+                continue;
+            }
+        }
+        ctx.finish().map_err(pf)?;
+    }
     let l = ctx.type_frontend(base).map_err(pf)?.unwrap();
     // learn the last dictionary-looking candidate that is not preselected
     let Some(idx) = (0..l.cands.len()).rev().find(|i| *i != l.sel && l.cands[*i].chars().all(crate::model::is_bengali_block)) else {
@@ -499,7 +511,9 @@ fn suffix_keys_of_base(base: &str, chunk: usize, st: &mut Stats) -> Result<(), F
 /// context that learned the base and in a restarted one.  (Generated probes meet a particular key - the longest, the
 /// shortest, one that is a prefix of another - only by chance.)
 fn all_suffix_keys(run: &Run) {
-    let bases = ["sesh", "kolkol", "onno", "amar", "hothat", "rong"];
+    // the last five are bases whose suffixed forms are themselves suffix keys ("ta"+"r" = "tar"): the text as a whole
+    // and its decomposition compete
+    let bases = ["sesh", "kolkol", "onno", "amar", "hothat", "rong", "ta", "sokol", "shob", "khana", "mala"];
     let items: Vec<(usize, usize)> = (0..bases.len()).flat_map(|b| (0..8usize).map(move |chunk| (b, chunk))).collect();
     run.exhaustive(
         "learned-base-x-every-suffix-key",
